@@ -278,12 +278,13 @@ class BoundedTermination(Unit):
     properties = ("C11",)
     level = "bounded"
     witness = False
-    max_paths = 60000
+    max_paths = 500  # deterministic truncation (a path count, not a time budget, so that runs are repeatable)
     truncate_ok = True  # a bounded stand-in: a truncated exploration is reported as such, never counted as proof
-    explore_budget_s = {"quick": 45, "thorough": 600}
+    explore_budget_s = {"quick": 300, "thorough": 1200}
 
     def cases(self, tier):
         lens = (8, 12, 20) if tier == "quick" else (4, 8, 12, 16, 20, 24, 32)
+        self.max_paths = 500 if tier == "quick" else 4000
         out = []
         for name, cls, fn, kind in decoder_functions():
             node = fn_node(fn)
@@ -294,7 +295,7 @@ class BoundedTermination(Unit):
                     out.append({"decoder": name, "n": n, "extra": extra})
         return out
 
-    bound_note = "buffers of length 8, 12, 20 (quick) / 4..32 (thorough) with all bytes symbolic; longer buffers are covered by the variant obligations only"
+    bound_note = "buffers of length 8, 12, 20 (quick) / 4..32 (thorough) with all bytes symbolic, at most 500 (4000) paths per decoder and length (depth-first; truncation is listed in the notes); longer buffers are covered by the variant obligations only"
 
     def case_id(self, case):
         return "%s,n=%d%s" % (case["decoder"], case["n"], "".join(",%s=%s" % kv for kv in sorted(case["extra"].items())))
